@@ -226,8 +226,8 @@ Definition rtu_slice (f : list N) (i : N * list N) : Prop := f = rtu_frame (fst 
 
 Lemma rtu_frame_dec_seg tbl : tbl [] = Val None -> (forall b, tbl b <> Panic) -> dec_seg (rtu_frame_dec tbl) rtu_slice.
 Proof.
-  intros Hnil Hnp buf b' r Hok H. unfold rtu_frame_dec in H.
-  destruct (decode_loop tbl MAX_RETRIES buf []) as [[b dr] r0] eqn:Hd. injection H as <- <-.
+  intros Hnil Hnp buf b' r Hok. unfold rtu_frame_dec. generalize MAX_RETRIES as fuel. intros fuel H.
+  destruct (decode_loop tbl fuel buf []) as [[b dr] r0] eqn:Hd. injection H as <- <-.
   destruct (decode_loop_segments tbl Hnil Hnp _ _ _ _ _ _ Hok Hd) as [d [_ [_ Hm]]].
   exists d. destruct r0 as [|[s p]| |]; try exact Hm. exists (rtu_frame s p). split; [reflexivity|exact Hm].
 Qed.
@@ -266,8 +266,9 @@ Section Lift.
   Context {H A B : Type}.
   Variable inner : list N -> list N * dres (H * A).
   Variable pd : A -> outcome B.
+  Variable dec : list N -> list N * dres (H * B).
   Variable Ri : list N -> H * A -> Prop.
-  Definition lifted (buf : list N) : list N * dres (H * B) :=
+  Hypothesis dec_eq : forall buf, dec buf =
     match inner buf with
     | (b, DSome (h, a)) => match pd a with Val v => (b, DSome (h, v)) | Fail k => (b, DErr k) | Panic => (b, DPanic) end
     | (b, DNone) => (b, DNone)
@@ -276,9 +277,9 @@ Section Lift.
     end.
   Definition lifted_slice (f : list N) (i : H * B) : Prop := exists a, Ri f (fst i, a) /\ pd a = Val (snd i).
 
-  Lemma lifted_seg : dec_seg inner Ri -> dec_seg lifted lifted_slice.
+  Lemma lifted_seg : dec_seg inner Ri -> dec_seg dec lifted_slice.
   Proof.
-    intros Hs buf b' r Hok H0. unfold lifted in H0. destruct (inner buf) as [b r0] eqn:Hi.
+    intros Hs buf b' r Hok H0. rewrite dec_eq in H0. destruct (inner buf) as [b r0] eqn:Hi.
     destruct (Hs _ _ _ Hok Hi) as [d Hm].
     destruct r0 as [|[h a]|k|].
     - injection H0 as <- <-. exists d. exact Hm.
@@ -304,49 +305,57 @@ Definition server_slice (p : proto) (f : list N) (i : hdr * request) : Prop :=
 Definition client_slice (p : proto) (f : list N) (i : hdr * rsp_result) : Prop :=
   exists pdu, frame_bytes p f (fst i) pdu /\ dec_rsp_pdu pdu = Val (snd i).
 
-Lemma rtu_hdr_seg tbl : tbl [] = Val None -> (forall b, tbl b <> Panic) ->
-  dec_seg (fun buf => match rtu_frame_dec tbl buf with
-                      | (b, DSome (s, pdu)) => (b, DSome ((0, s), pdu))
-                      | (b, DNone) => (b, DNone) | (b, DErr k) => (b, DErr k) | (b, DPanic) => (b, DPanic)
-                      end)
-          (fun f (i : hdr * list N) => f = rtu_frame (snd (fst i)) (snd i) /\ fst (fst i) = 0).
+Definition rtu_hdr_dec (tbl : list N -> outcome (option N)) (buf : list N) : list N * dres (hdr * list N) :=
+  match rtu_frame_dec tbl buf with
+  | (b, DSome (s, pdu)) => (b, DSome ((0, s), pdu))
+  | (b, DNone) => (b, DNone) | (b, DErr k) => (b, DErr k) | (b, DPanic) => (b, DPanic)
+  end.
+Definition rtu_hdr_slice (f : list N) (i : hdr * list N) : Prop := f = rtu_frame (snd (fst i)) (snd i) /\ fst (fst i) = 0.
+
+Lemma rtu_hdr_seg tbl : tbl [] = Val None -> (forall b, tbl b <> Panic) -> dec_seg (rtu_hdr_dec tbl) rtu_hdr_slice.
 Proof.
-  intros Hnil Hnp buf b' r Hok H. destruct (rtu_frame_dec tbl buf) as [b r0] eqn:Hd.
+  intros Hnil Hnp buf b' r Hok. unfold rtu_hdr_dec. destruct (rtu_frame_dec tbl buf) as [b r0] eqn:Hd. intros H.
   destruct (rtu_frame_dec_seg tbl Hnil Hnp _ _ _ Hok Hd) as [d Hm].
   destruct r0 as [|[s pdu]|k|]; injection H as <- <-; exists d; try exact Hm.
-  destruct Hm as [f [HR Hm]]. exists f. split; [|exact Hm]. unfold rtu_slice in HR. cbn [fst snd] in *. auto.
+  destruct Hm as [f [HR Hm]]. exists f. split; [|exact Hm]. split; [exact HR|reflexivity].
+Qed.
+
+Lemma tcp_server_dec_seg : dec_seg tcp_server_dec (lifted_slice dec_req mbap_slice).
+Proof. apply (lifted_seg adu_decode dec_req tcp_server_dec mbap_slice); [|exact adu_decode_seg]. intros buf. reflexivity. Qed.
+Lemma tcp_client_dec_seg : dec_seg tcp_client_dec (lifted_slice dec_rsp_pdu mbap_slice).
+Proof. apply (lifted_seg adu_decode dec_rsp_pdu tcp_client_dec mbap_slice); [|exact adu_decode_seg]. intros buf. reflexivity. Qed.
+Lemma rtu_server_dec_seg : dec_seg rtu_server_dec (lifted_slice dec_req rtu_hdr_slice).
+Proof.
+  apply (lifted_seg (rtu_hdr_dec req_pdu_len) dec_req rtu_server_dec rtu_hdr_slice);
+    [|exact (rtu_hdr_seg req_pdu_len req_pdu_len_nil req_pdu_len_no_panic)].
+  intros buf. unfold rtu_server_dec, rtu_hdr_dec. destruct (rtu_frame_dec req_pdu_len buf) as [b [|[s p]|k|]]; reflexivity.
+Qed.
+Lemma rtu_client_dec_seg : dec_seg rtu_client_dec (lifted_slice dec_rsp_pdu rtu_hdr_slice).
+Proof.
+  apply (lifted_seg (rtu_hdr_dec rsp_pdu_len) dec_rsp_pdu rtu_client_dec rtu_hdr_slice);
+    [|exact (rtu_hdr_seg rsp_pdu_len rsp_pdu_len_nil rsp_pdu_len_no_panic)].
+  intros buf. unfold rtu_client_dec, rtu_hdr_dec. destruct (rtu_frame_dec rsp_pdu_len buf) as [b [|[s p]|k|]]; reflexivity.
+Qed.
+
+Lemma dec_seg_weaken {I} (dec : list N -> list N * dres I) (R R' : list N -> I -> Prop) :
+  (forall f i, R f i -> R' f i) -> dec_seg dec R -> dec_seg dec R'.
+Proof.
+  intros HR Hs buf b' r Hok H. destruct (Hs buf b' r Hok H) as [d Hm]. exists d.
+  destruct r as [|i|k|]; try exact Hm. destruct Hm as [f [Hf Hm]]. exists f. split; [apply HR; exact Hf|exact Hm].
 Qed.
 
 Lemma server_dec_seg p : dec_seg (server_dec p) (server_slice p).
 Proof.
-  destruct p.
-  - intros buf b' r Hok H.
-    destruct (lifted_seg adu_decode dec_req mbap_slice adu_decode_seg buf b' r Hok) as [d Hm].
-    { unfold lifted. cbn [server_dec] in H. unfold tcp_server_dec in H. exact H. }
-    exists d. destruct r as [|[h rq]|k|]; try exact Hm.
-    destruct Hm as [f [[a [HR Hp]] Hm]]. exists f. split; [|exact Hm]. exists a. split; assumption.
-  - intros buf b' r Hok H.
-    destruct (lifted_seg _ dec_req _ (rtu_hdr_seg req_pdu_len req_pdu_len_nil req_pdu_len_no_panic) buf b' r Hok) as [d Hm].
-    { unfold lifted. cbn [server_dec] in H. unfold rtu_server_dec in H.
-      destruct (rtu_frame_dec req_pdu_len buf) as [b [|[s pdu]|k|]]; exact H. }
-    exists d. destruct r as [|[h rq]|k|]; try exact Hm.
-    destruct Hm as [f [[a [HR Hp]] Hm]]. exists f. split; [|exact Hm]. exists a. split; assumption.
+  destruct p; cbn [server_dec].
+  - apply (dec_seg_weaken _ _ _ (fun f i (H : lifted_slice dec_req mbap_slice f i) => H)). exact tcp_server_dec_seg.
+  - apply (dec_seg_weaken _ _ _ (fun f i (H : lifted_slice dec_req rtu_hdr_slice f i) => H)). exact rtu_server_dec_seg.
 Qed.
 
 Lemma client_dec_seg p : dec_seg (client_dec p) (client_slice p).
 Proof.
-  destruct p.
-  - intros buf b' r Hok H.
-    destruct (lifted_seg adu_decode dec_rsp_pdu mbap_slice adu_decode_seg buf b' r Hok) as [d Hm].
-    { unfold lifted. cbn [client_dec] in H. unfold tcp_client_dec in H. exact H. }
-    exists d. destruct r as [|[h rq]|k|]; try exact Hm.
-    destruct Hm as [f [[a [HR Hp]] Hm]]. exists f. split; [|exact Hm]. exists a. split; assumption.
-  - intros buf b' r Hok H.
-    destruct (lifted_seg _ dec_rsp_pdu _ (rtu_hdr_seg rsp_pdu_len rsp_pdu_len_nil rsp_pdu_len_no_panic) buf b' r Hok) as [d Hm].
-    { unfold lifted. cbn [client_dec] in H. unfold rtu_client_dec in H.
-      destruct (rtu_frame_dec rsp_pdu_len buf) as [b [|[s pdu]|k|]]; exact H. }
-    exists d. destruct r as [|[h rq]|k|]; try exact Hm.
-    destruct Hm as [f [[a [HR Hp]] Hm]]. exists f. split; [|exact Hm]. exists a. split; assumption.
+  destruct p; cbn [client_dec].
+  - apply (dec_seg_weaken _ _ _ (fun f i (H : lifted_slice dec_rsp_pdu mbap_slice f i) => H)). exact tcp_client_dec_seg.
+  - apply (dec_seg_weaken _ _ _ (fun f i (H : lifted_slice dec_rsp_pdu rtu_hdr_slice f i) => H)). exact rtu_client_dec_seg.
 Qed.
 
 (* ---- the server loop: the requests handed to the service, in order, are carried by disjoint slices
@@ -379,7 +388,7 @@ Proof.
     destruct nr as [[h req]|k| | | |]; try (apply Hnone; reflexivity).
     cbn [seg_res] in Hs. destruct Hs as [f [HR Hs]].
     assert (Hok1 : bytes_ok (rbuf r1 ++ sdata q1) = true).
-    { rewrite Hs, !app_assoc in Hok. exact (bytes_ok_tail _ _ _ Hok). }
+    { rewrite Hs in Hok. exact (bytes_ok_tail _ _ (bytes_ok_tail _ _ Hok)). }
     assert (Hcs : call_slice p f (snd h, req)).
     { exists (fst h). cbn [fst snd]. destruct h. exact HR. }
     assert (Hhead : forall t, (exists rest, Slices (call_slice p) (rbuf r1 ++ sdata q1) (calls t) rest) ->
@@ -391,16 +400,33 @@ Proof.
     apply Hhead.
     destruct (match svc with [] => SDecline | x :: _ => x end) as [rsp| |code].
     + destruct (send _ _ None) as [[[sr w1] bg2] pn].
-      destruct pn; [apply Hstop; reflexivity|].
-      destruct sr; try (apply Hstop; reflexivity).
+      destruct sr, pn; try (apply Hstop; reflexivity).
       rewrite calls_app, calls_wrote. cbn [app]. apply IH. exact Hok1.
     + apply IH. exact Hok1.
     + destruct (send _ _ None) as [[[sr w1] bg2] pn].
-      destruct pn; [apply Hstop; reflexivity|].
-      destruct sr; try (apply Hstop; reflexivity).
+      destruct sr, pn; try (apply Hstop; reflexivity).
       rewrite calls_app, calls_wrote. cbn [app]. apply IH. exact Hok1.
 Qed.
 
 Corollary serve_conn_slices p m q wq fq svc : bytes_ok (sdata q) = true ->
   exists rest, Slices (call_slice p) (sdata q) (calls (serve_conn p m q wq fq svc)) rest.
 Proof. intros Hok. unfold serve_conn. apply (process_slices p m _ rstate0). exact Hok. Qed.
+
+(* what a slice is, spelled out per framing *)
+Lemma rtu_call_slice f c : call_slice RTU f c ->
+  exists pdu, f = fst c :: pdu ++ crc2 (fst c :: pdu) /\ dec_req pdu = Val (snd c).
+Proof. intros [tid [pdu [[Hf _] Hd]]]. exists pdu. split; [exact Hf|exact Hd]. Qed.
+
+Lemma tcp_call_slice f c : call_slice TCP f c ->
+  exists t1 t2 l1 l2 pdu, f = t1 :: t2 :: 0 :: 0 :: l1 :: l2 :: fst c :: pdu
+    /\ of_be16 l1 l2 = len pdu + 1 /\ dec_req pdu = Val (snd c).
+Proof.
+  intros [tid [pdu [[t1 [t2 [l1 [l2 [Hf [_ Hl]]]]]] Hd]]]. exists t1, t2, l1, l2, pdu. cbn [fst snd] in *. auto.
+Qed.
+
+Lemma tcp_client_slice f i : client_slice TCP f i ->
+  exists t1 t2 l1 l2 pdu, f = t1 :: t2 :: 0 :: 0 :: l1 :: l2 :: snd (fst i) :: pdu
+    /\ fst (fst i) = of_be16 t1 t2 /\ of_be16 l1 l2 = len pdu + 1 /\ dec_rsp_pdu pdu = Val (snd i).
+Proof.
+  intros [pdu [[t1 [t2 [l1 [l2 [Hf [Ht Hl]]]]]] Hd]]. exists t1, t2, l1, l2, pdu. cbn [fst snd] in *. auto.
+Qed.
